@@ -1,6 +1,6 @@
 SPECIFICATION XSpec
 CONSTANTS
- Cases <- MCCases
+ Cases <- MCDeep
  MaxFail = 1
  DevItpBeforeLinks = FALSE
  DevGroBlockOrder = FALSE
